@@ -161,54 +161,121 @@ def check(prog, run):
     vf = sv.methods.get("validate_fields")
     fr = prog.get_func("py_gql.execution.executor", "Executor.field_resolver")
 
-    def chain(f, var):
-        """The ordered fallback chain that ends up in one local: `x = a or b or c`, or the equivalent
-        `x = a` / `if not x: x = b` / `if not x: x = c` ladder (nested or sequential)."""
-        def item(v):
-            if isinstance(v, ast.IfExp):
-                v = v.body
-            if isinstance(v, ast.Attribute):
-                return [v.attr.lstrip("_")]
-            if isinstance(v, ast.BoolOp) and isinstance(v.op, ast.Or):
-                return [y for x in v.values for y in item(x)]
-            return ["<%s>" % " ".join(ast.unparse(v).split())[:50]]
-        defs = [n for n in own_nodes(f.node) if isinstance(n, ast.Assign) and len(n.targets) == 1 and isinstance(n.targets[0], ast.Name)
-                and any(isinstance(x, ast.Attribute) and "resolver" in x.attr for x in ast.walk(n.value))
-                and not any(isinstance(x, ast.Call) and not (isinstance(x.func, ast.Name) and x.func.id == "isinstance") for x in ast.walk(n.value))]
-        names = {n.targets[0].id for n in defs}
-        if len(names) != 1:
-            return None, defs[0] if defs else None
-        x = names.pop()
-        out = []
+    from .. import boolx as _bxv
+    import itertools as _it
 
-        def ladder(stmts):
-            for st in stmts:
-                if isinstance(st, ast.Assign) and len(st.targets) == 1 and isinstance(st.targets[0], ast.Name) and st.targets[0].id == x:
-                    out.extend(item(st.value))
-                elif isinstance(st, ast.If) and not st.orelse and ((isinstance(st.test, ast.UnaryOp) and isinstance(st.test.op, ast.Not)
-                                                                      and isinstance(st.test.operand, ast.Name) and st.test.operand.id == x)
-                                                                     or ast.unparse(st.test) == "%s is None" % x):
-                    ladder(st.body)
-                elif isinstance(st, (ast.For, ast.While, ast.With, ast.Try)) or (isinstance(st, ast.If) and any(
-                        isinstance(y, ast.Name) and y.id == x and isinstance(y.ctx, ast.Store) for y in ast.walk(st))):
-                    for field in ("body", "orelse", "finalbody"):
-                        ladder(getattr(st, field, []) or [])
-                    for h in getattr(st, "handlers", []):
-                        ladder(h.body)
-                elif any(isinstance(y, ast.Name) and y.id == x and isinstance(y.ctx, ast.Store) for y in ast.walk(st)):
-                    out.append("<?>")
-        ladder(f.node.body)
-        return out or None, defs[0]
-    vchain, vdef = chain(vf, "resolver")
-    echain, edef = chain(fr, "base")
-    r.instance("validator chain %s" % vchain)
-    r.instance("executor chain %s" % echain)
-    if echain is None:
+    def selection_table(f, role):
+        """{(field resolver set?, type default set?, schema default set?) -> resolvers selected}: which of the three the function ends
+        up with on the executions consistent with each truth assignment - whatever the spelling (`a or b or c`, a ladder of
+        `if not x:`, early returns in a helper).  ``role(env, st)`` yields the expressions holding the selected resolver."""
+        texts = sorted({" ".join(ast.unparse(n).split()) for n in ast.walk(f.node) if isinstance(n, ast.Attribute) and isinstance(n.ctx, ast.Load)
+                        and n.attr.endswith("resolver") and not (isinstance(getattr(n, "_parent", None), ast.Call) and n._parent.func is n)})
+
+        def norm(t):
+            recv, _, attr = t.rpartition(".")
+            return ("schema" if recv.split(".")[0] in ("self", "executor", "schema") and ("default" in attr) else "member") + "." + attr.lstrip("_")
+        names = sorted({norm(t) for t in texts})
+        table = {}
+        for combo in _it.product((True, False), repeat=len(names)):
+            asg = dict(zip(names, combo))
+
+            def truth_of(t):
+                t = " ".join(t.split())
+                if t in texts:
+                    return asg[norm(t)]
+                for suf, pos in ((" is not None", True), (" is None", False)):
+                    if t.endswith(suf) and t[:-len(suf)] in texts:
+                        return asg[norm(t[:-len(suf)])] == pos
+                if t.startswith("isinstance(") and t.endswith("ObjectType)"):
+                    return True
+                return None
+
+            def select(e):
+                if isinstance(e, ast.BoolOp) and isinstance(e.op, ast.Or):
+                    for v in e.values[:-1]:
+                        sv_ = select(v)
+                        if sv_ is not None and truth_of(ast.unparse(sv_)) is True:
+                            return sv_
+                    return select(e.values[-1])
+                if isinstance(e, ast.IfExp):
+                    tv = truth_of(ast.unparse(e.test))
+                    if tv is None:
+                        raise AnalysisError("C13.V4: cannot decide `%s` in %s" % (ast.unparse(e.test), f.qualname))
+                    return select(e.body if tv else e.orelse)
+                if isinstance(e, ast.Constant) and e.value is None:
+                    return None
+                return e
+            def decide(t, env, e, truth_of=truth_of):
+                d = truth_of(t)
+                if d is None and e is not None:
+                    # a local holding one of the three (`own = field.resolver` ... `if own:`) is decided like what it holds
+                    try:
+                        v = _bxv.path_subst(e, _bxv.path_env(env.get(_bxv.STMTS, ())))
+                        d = truth_of(" ".join(ast.unparse(v).split()))
+                    except Exception:
+                        d = None
+                return d
+            decide.wants_env = True
+            try:
+                _ev, exits = _bxv.walk_under(f.node, decide)
+            except ValueError as e:
+                raise AnalysisError("C13.V4: %s" % e)
+            sel = set()
+            for kind, st, env in exits:
+                stmts = env.get(_bxv.STMTS, ())
+                for holder, expr in role(env, stmts):
+                    v = select(_bxv.path_subst(expr, _bxv.path_env(stmts, holder)))
+                    t = " ".join(ast.unparse(v).split()) if v is not None else None
+                    if t is not None and t in texts and truth_of(t) is not False:
+                        sel.add(norm(t))
+                    elif t is not None and t not in texts:
+                        sel.add("<%s>" % t[:40])
+            table[tuple(sorted(k for k, v in asg.items() if v))] = sel
+        return names, table
+
+    def stmt_of(c):
+        while c is not None and not isinstance(c, ast.stmt):
+            c = getattr(c, "_parent", None)
+        return c
+
+    def validator_role(env, stmts):
+        for c in env.get(_bxv.CALLS, ()):
+            if isinstance(c.func, ast.Attribute) and c.func.attr == "_validate_resolver_arguments":
+                callee = sv.methods.get("_validate_resolver_arguments")
+                ps = [p for p in callee.params if p != prog.self_name(callee)]
+                idx = ps.index("resolver") if "resolver" in ps else len(ps) - 1
+                arg = next((k.value for k in c.keywords if k.arg == "resolver"), c.args[idx] if idx < len(c.args) else None)
+                if arg is not None:
+                    yield stmt_of(c), arg
+
+    def executor_role(env, stmts):
+        for st in stmts:
+            if isinstance(st, ast.Assign) and len(st.targets) == 1 and isinstance(st.targets[0], ast.Subscript):
+                yield st, st.targets[0].slice
+    if sv.methods.get("_validate_resolver_arguments") is None:
+        raise AnalysisError("C13.V4: SchemaValidator._validate_resolver_arguments not found")
+    vnames, vtab = selection_table(vf, validator_role)
+    enames, etab = selection_table(fr, executor_role)
+    r.instance("validator selection %s" % {k: sorted(v) for k, v in sorted(vtab.items())})
+    r.instance("executor selection %s" % {k: sorted(v) for k, v in sorted(etab.items())})
+    if not any(etab.values()):
         raise AnalysisError("C13.V4: Executor.field_resolver fallback chain not recognised")
-    if vchain != echain:
-        run.report(r, "%s:SchemaValidator.validate_fields:resolver-chain" % VAL, vf.where(vdef) if vdef is not None else vf.where(),
-                   "the validator looks the resolver up as %s while the executor calls %s: an incompatible resolver can go unchecked "
-                   "(or a compatible schema be rejected)" % (vchain, echain))
+    if not any(vtab.values()):
+        raise AnalysisError("C13.V4: the resolver handed to the signature check of validate_fields was not found")
+    bad = []
+    for k in sorted(set(vtab) | set(etab)):
+        ve, ee = vtab.get(k, set()), etab.get(k, set())
+        if ve and ee and ve != ee:
+            bad.append((k, sorted(ve), sorted(ee)))
+        elif ee and not ve and k:        # the executor calls a user-supplied resolver the validator never looks at
+            if any(x.startswith("member.") for x in ee):
+                bad.append((k, sorted(ve), sorted(ee)))
+    if vnames != enames:
+        bad.append(("sources", vnames, enames))
+    if bad:
+        run.report(r, "%s:SchemaValidator.validate_fields:resolver-chain" % VAL, vf.where(),
+                   "the validator and the executor do not pick the same resolver: %s (resolvers present -> validator checks / executor "
+                   "calls): an incompatible resolver can go unchecked (or a compatible schema be rejected)" % bad[:3])
 
     # ---- V3 accumulate, do not raise
     r = run.rule("V3", "SchemaValidator methods never raise (violations are accumulated); validate_schema raises "
